@@ -23,7 +23,7 @@ TRAITS = {
     "Tr": ("Main", "Tr", ["m", "r", "rm"]),
 }
 TYPE_DEFS = {
-    "LibA": "struct AS { a: int32 }\nenum AE { AX, AY(int32) }\n",
+    "LibA": "struct AS { a: int32 }\nenum AE { AX, AY(int32) }\nstruct LBox[T] { v: T }\nimpl[T] LBox[T] {\n    fn im(self: LBox[T], a: int32) -> string { \"inh.im@LBox(\" + int32_to_string(a) + \")\" }\n}\n",
     "LibB": "struct BS { f: bool }\n",
     "Main": "struct MP { a: int32, b: int32 }\nstruct Box[T] { v: T }\n",
 }
@@ -177,17 +177,21 @@ class Gen:
             if not pairs:
                 break
             if r.random() < 0.2 and (self.inherent or self.box_inherent):
-                cands = list(self.inherent) + (["BoxI", "BoxS"] if self.box_inherent else [])
+                cands = list(self.inherent) + (["BoxI", "BoxS"] if self.box_inherent else []) + ["LBoxI", "LBoxS"]
                 tk = r.choice(cands)
-                vg, vm = r.choice(TYPES[tk][3])
+                # a generic type of another package with an inherent method
+                LB = {"LBoxI": [("LibA::LBox { v: 4 }", "LBox { v: 4 }")], "LBoxS": [('LibA::LBox { v: "z" }', 'LBox { v: "z" }')]}
+                vg, vm = r.choice(LB[tk] if tk in LB else TYPES[tk][3])
                 x = "x%d" % k
                 k += 1
                 a = str(r.choice([0, 1, 7]))
-                tpath = {"AS": "LibA::AS", "AE": "LibA::AE", "BS": "LibB::BS", "MP": "MP", "BoxI": "Box", "BoxS": "Box"}[tk]
+                tpath = {"AS": "LibA::AS", "AE": "LibA::AE", "BS": "LibB::BS", "MP": "MP", "BoxI": "Box", "BoxS": "Box", "LBoxI": "LibA::LBox", "LBoxS": "LibA::LBox"}[tk]
                 form = r.choice(["dot", "path"])
                 call = ("%s.im(%s)" % (x, a)) if form == "dot" else "%s::im(%s, %s)" % (tpath, x, a)
                 forms_used["inherent-" + form] = forms_used.get("inherent-" + form, 0) + 1
-                if tk.startswith("Box"):
+                if tk.startswith("LBox"):
+                    ref = '"inh.im@LBox(" + int32_to_string(%s) + ")"' % a
+                elif tk.startswith("Box"):
                     ref = '"inh.im@Box(" + int32_to_string(%s) + ")"' % a
                 else:
                     name = "p_inh_%s_im" % tk
@@ -215,7 +219,7 @@ class Gen:
             "LibB/lib.gom": self.package("LibB"),
             "main.gom": self.package("Main") + "\n".join(t for _, t in self.helpers.values()) + "\n" + main_fn,
         }
-        plain = "struct AS { a: int32 }\nenum AE { AX, AY(int32) }\nstruct BS { f: bool }\nstruct MP { a: int32, b: int32 }\nstruct Box[T] { v: T }\n"
+        plain = "struct AS { a: int32 }\nenum AE { AX, AY(int32) }\nstruct BS { f: bool }\nstruct MP { a: int32, b: int32 }\nstruct Box[T] { v: T }\nstruct LBox[T] { v: T }\n"
         plain += "\n".join(t for _, t in self.plain.values()) + "\nfn main() {\n" + "\n".join("    " + s for s in m_stmts) + "\n    ()\n}\n"
         return files, plain, forms_used
 
